@@ -55,7 +55,7 @@ LEVEL_NOTE = (
     "parentage is observed through a Task subclass, pool hand-outs through a Connection subclass."
 )
 RULE = (
-    "Run = scenario (op http|ws, request body none/bytes/streamed, response framing/size/pieces, victim read mode "
+    "Run = scenario (op http|ws, request body none/bytes/streamed, response framing (Content-Length / chunked / until EOF)/size/pieces, victim read mode "
     "incl. slow consumer with small read buffer, stall point and duration, http or https target (scripted TLS handshake: delay / stall / reset), timeout kind and value, ceil threshold, pool "
     "limit / per-host limit, bystanders with host/start offset/server delay, DNS delay, 1-2 addresses, trace hooks, "
     "segmentation, latency, early follow-up or not) executed un-cancelled, then once per requested cancel point (before "
@@ -72,7 +72,10 @@ ENUM_RULE = (
     "trace hooks: total timeout on every instant at which the calling task runs; (4) slow consumer with paused "
     "transport under sock_read with/without a body stall; (5) https target with a scripted TLS handshake after the "
     "TCP connect: handshake stalled x {none, total/connect/sock_connect/sock_read x values} x layout x 1-2 addresses, "
-    "and cancel before every step with the handshake stalled / slow / reset by the peer"
+    "and cancel before every step with the handshake stalled / slow / reset by the peer; (6) response body delimited "
+    "by EOF (no Content-Length, not chunked; Connection: close / no header / HTTP/1.0): stall point in {none,status,"
+    "header,hdr_body,body,every byte sent but connection left open} x {none, total/sock_read/connect x values} x "
+    "layout x read()/read(n), and cancel before every step"
 )
 COMPONENTS = {
     "real": ["aiohttp.ClientSession", "TCPConnector / BaseConnector / Connection", "client_proto.ResponseHandler",
@@ -161,6 +164,12 @@ def oracle_selftest():
     assert b"\r\n" not in full[cuts["header"] - 3:cuts["header"] + 1]
     full, cuts = build_response({"framing": "cl", "size": 100, "nchunks": 1})
     assert len(full) - cuts["hdr_body"] == 100 and cuts["hdr_body"] < cuts["body"] < len(full)
+    full, cuts = build_response({"framing": "eof", "size": 100, "eof_hdr": "bare"})
+    assert b"ength" not in full and b"ncoding" not in full and b"Connection" not in full
+    assert cuts["final_chunk"] == len(full) and len(full) - cuts["hdr_body"] == 100 and full[:cuts["hdr_body"]].endswith(b"\r\n\r\n")
+    assert build_response({"framing": "eof", "size": 10, "eof_hdr": "http10"})[0].startswith(b"HTTP/1.0 200")
+    assert b"\r\nConnection: close\r\n" in build_response({"framing": "eof", "size": 10})[0]
+    assert expected_victim_body({"framing": "eof", "size": 77, "eof_hdr": "close"}) == victim_body(77)
     ev = [(1.0, "write"), (1.2, "rx"), (1.2, "pause"), (3.0, "resume"), (3.1, "rx")]
     assert abs(max_silence(ev, 3.2) - 0.2) < 1e-9 and abs(max_silence(ev, 2.9) - 0.2) < 1e-9
     assert abs(max_silence(ev, 4.0) - 0.9) < 1e-9
@@ -187,6 +196,17 @@ def build_response(resp):
         head = status + b"Content-Type: text/plain\r\nContent-Length: " + str(size).encode() + b"\r\n\r\n"
         full = head + body
         cuts = {"status": 0, "header": len(status) + 9, "hdr_body": len(head), "body": len(head) + max(1, size // 2)}
+    elif resp["framing"] == "eof":
+        # body delimited by the close of the connection: neither Content-Length nor Transfer-Encoding;
+        # announced with "Connection: close", not at all, or implied by an HTTP/1.0 status line.  The
+        # peer closes after the last byte; "final_chunk" here is the instant before that close.
+        hdr = resp.get("eof_hdr", "close")
+        if hdr == "http10":
+            status = b"HTTP/1.0 200 OK\r\n"
+        head = status + b"Content-Type: text/plain\r\n" + (b"Connection: close\r\n" if hdr == "close" else b"") + b"\r\n"
+        full = head + body
+        cuts = {"status": 0, "header": len(status) + 9, "hdr_body": len(head), "body": len(head) + max(1, size // 2),
+                "final_chunk": len(full)}
     else:
         head = status + b"Content-Type: text/plain\r\nTransfer-Encoding: chunked\r\n\r\n"
         n = max(2, resp["nchunks"])
@@ -213,7 +233,7 @@ def build_response(resp):
 
 def expected_victim_body(resp):
     full, cuts = build_response(resp)
-    if resp["framing"] == "cl":
+    if resp["framing"] in ("cl", "eof"):
         return full[cuts["hdr_body"]:]
     # decode our own chunking
     out = bytearray()
@@ -377,9 +397,19 @@ class Server:
         pieces = max(1, resp.get("pieces", 1))
         gap = resp.get("gap", 0.0)
         bounds = sorted({cut * (i + 1) // pieces for i in range(pieces)} - {0})
-        stalls = cut < len(full)
+        # a body delimited by EOF ends with the peer's close: the peer can also go silent with every
+        # byte sent and the connection still open
+        eof = resp["framing"] == "eof"
+        stalls = cut < len(full) or (eof and self.point == "final_chunk")
         if stalls:
             conn.stalled = True
+
+        def end_of_response():
+            self.victim_resp_done = True
+            self.victim_resp_end = conn.transport.out.written
+            if eof and not conn.transport.is_closing():
+                loop.note("server_close", "victim response delimited by EOF")
+                conn.transport.close()
 
         def finish():
             if stalls:
@@ -388,13 +418,12 @@ class Server:
                 if self.stall.get("dur"):
                     def resume():
                         conn.stalled = False
-                        conn.send(full[cut:])
-                        self.victim_resp_done = True
-                        self.victim_resp_end = conn.transport.out.written
+                        if cut < len(full):
+                            conn.send(full[cut:])
+                        end_of_response()
                     loop.sim_call_later(self.stall["dur"], resume)
             else:
-                self.victim_resp_done = True
-                self.victim_resp_end = conn.transport.out.written
+                end_of_response()
 
         def piece(i, prev):
             # pieces are chained so that they cannot overtake each other
@@ -943,6 +972,10 @@ class Exec:
         loop.run_sim(vt, vt_cap=horizon, step_cap=400_000)
         step_capped = loop.capped == "steps"
         pending_at_horizon = not vt.done()
+        if pending_at_horizon and not step_capped and loop.idle and loop.capped is None:
+            # nothing at all is left to happen (no timer, no network event): the victim is blocked for ever,
+            # whatever the clock says now
+            rec["blocked_for_ever"] = True
         if pending_at_horizon and not step_capped:
             # still blocked: the bounds are judged below; cancel it here so that residue can be
             # judged as well ("cancel while stalled")
@@ -1196,11 +1229,13 @@ class Exec:
                                      f"ws.close() was called at {ref:.6f} with ws_close={value}: it must return by "
                                      f"{dl:.6f} but was still blocked at {rec['cancel_t']:.6f}")
                 elif cancelled_by_us:
-                    if rec.get("cancel_t", 0.0) > limit and not rec.get("in_sleep"):
+                    if (rec.get("cancel_t", 0.0) > limit or rec.get("blocked_for_ever")) and not rec.get("in_sleep"):
                         self.violate("timeout_bound", f"missing:{kind}:{point}",
                                      f"{kind}={value} (ceil_threshold {thr}), peer silent at '{point}': counted from "
                                      f"{ref:.6f} ({why}) the call must fail with a timeout error by {dl + slack:.6f} but it "
-                                     f"was still blocked at {rec['cancel_t']:.6f}")
+                                     f"was still blocked at {rec['cancel_t']:.6f}"
+                                     + (" with no timer or network event left that could ever end it"
+                                        if rec.get("blocked_for_ever") else ""))
                 elif rec["outcome"] != "timeout":
                     self.violate("timeout_bound", f"wrong_outcome:{rec['outcome']}:{rec.get('exc')}:{kind}:{point}",
                                  f"{kind}={value}, peer silent at '{point}': the call must fail with a timeout error by "
@@ -1240,7 +1275,8 @@ class Exec:
                     why_bad = "sock_read is configured but nothing was sent yet"
                 else:
                     t_end = t_done
-                    if server.victim_resp_end is not None:
+                    if server.victim_resp_end is not None and scn["resp"].get("framing") != "eof":
+                        # (a body delimited by EOF is not complete before the peer closes)
                         # once the whole response has been received there is nothing left to wait for
                         t_end = min([t_done] + [t for t, cum in ctr.c18_rxlog if cum >= server.victim_resp_end][:1])
                     quiet = max_silence(ctr.c18_ev, t_end)
@@ -1475,6 +1511,15 @@ def _for_stall(scn, point, dur=None):
     return scn
 
 
+EOF_HDRS = ["close", "bare", "http10"]
+
+
+def _eof(scn, hdr="close"):
+    """The victim's response body is delimited by the close of the connection (applied after _for_stall)."""
+    scn["resp"] = dict(scn["resp"], framing="eof", eof_hdr=hdr)
+    return scn
+
+
 def _timeouts(tier):
     out = [None]
     values = (1.5, 7.25) if tier == "quick" else (0.3, 1.5, 5.0, 7.25)
@@ -1523,6 +1568,8 @@ def enumerate_cases(tier, seed):
                     if (to and to["kind"] == "ws_close") or point == "ws_close":
                         scn["op"] = "ws"
                     yield _for_stall(scn, point)
+    # (6a: cheap cases without a cancel sweep, run together with the grid above)
+    yield from _eof_cases(tier, "bound")
     # 2. per stall point x {no timeout, each covering timeout kind}: cancel before every step of the
     #    calling task (the un-cancelled execution of the same scenario gives the steps)
     for point in points:
@@ -1590,6 +1637,42 @@ def enumerate_cases(tier, seed):
                 scn["seg_s2c"] = seg
                 yield _for_stall(scn, point)
     yield from _tls_cases(tier)
+    yield from _eof_cases(tier, "cancel")
+
+
+def _eof_cases(tier, part=None):
+    """6. response body delimited by EOF (no Content-Length, not chunked; the peer closes after the last byte)."""
+    quick = tier == "quick"
+    values = (1.5, 7.25) if quick else (0.3, 1.5, 5.0, 7.25)
+    n = 0
+    # 6a. stall point (final_chunk = every byte sent, connection left open) x timeout kind/value x layout
+    for point in (None, "status", "header", "hdr_body", "body", "final_chunk"):
+        for to in [None] + [{"kind": k, "value": v} for k in ("total", "sock_read", "connect") for v in values]:
+            for lay in (["none", "same_host_before"] if quick else list(BY_LAYOUTS)):
+                for mode in ("read", "slow"):
+                    scn = _layout(_base_scn(), lay)
+                    scn["timeout"] = dict(to) if to else None
+                    if mode == "slow":
+                        scn["read"] = {"mode": "slow", "n": 64, "gap": 0.0, "bufsize": None}
+                    n += 1
+                    if part in (None, "bound"):
+                        yield _eof(_for_stall(scn, point), EOF_HDRS[n % 3])
+    # 6b. cancel before every step of the calling task
+    for point in (None, "hdr_body", "body", "final_chunk"):
+        for to in (None, {"kind": "total", "value": 1.5}, {"kind": "sock_read", "value": 1.5}):
+            if to and point is None:
+                continue
+            for lay in ("none", "same_host_second", "same_host_before"):
+                for traces in ((False,) if quick else (False, True)):
+                    scn = _layout(_base_scn(), lay)
+                    scn["timeout"] = dict(to) if to else None
+                    scn["traces"] = traces
+                    scn["lat"] = 1
+                    n += 1
+                    scn = _eof(_for_stall(scn, point), EOF_HDRS[n % 3])
+                    scn["cancel"] = {"k": "all"}
+                    if part in (None, "cancel"):
+                        yield scn
 
 
 def _tls_cases(tier):
@@ -1712,6 +1795,11 @@ def gen(rng, tier, index):
             scn = _for_stall(scn, TLS_POINT, dur)
         elif r < 0.65:
             scn["tls"]["fail"] = True
+    # response body delimited by EOF (drawn last).  Every response stall point keeps its meaning except the
+    # chunk-size line; "final_chunk" becomes "every byte sent, connection not closed".
+    r, hdr = rng.random(), rng.choice(EOF_HDRS)
+    if r < 0.12 and scn["op"] == "http" and (scn.get("stall") or {}).get("point") != "chunk_size":
+        scn = _eof(scn, hdr)
     return scn
 
 
@@ -1762,6 +1850,11 @@ def shrink(scn):
     if b["kind"] != "none" and not (st and st["point"] == "send_body"):
         yield dict(scn, body={"kind": "none"})
     r = scn.get("resp") or {}
+    if r.get("framing") == "eof":
+        if r.get("eof_hdr", "close") != "close":
+            yield dict(scn, resp=dict(r, eof_hdr="close"))
+        yield dict(scn, resp=dict({k: v for k, v in r.items() if k != "eof_hdr"},
+                                  framing="chunked" if st and st["point"] == "final_chunk" else "cl"))
     if r.get("pieces", 1) != 1 or r.get("gap") or r.get("delay"):
         yield dict(scn, resp=dict(r, pieces=1, gap=0.0, delay=0.0))
     if r.get("size", 0) > 300 and not (st and st["point"] in ("chunk_size", "final_chunk")):
